@@ -493,6 +493,51 @@ def random_session(rng, T, sid, edge_p):
     return {"id": sid, "origin": "random", "steps": steps}
 
 
+# ----------------------------------------------------------------------------------------------
+# slow documents: the analysis of a long chain of rules takes seconds (it is strongly super-linear
+# in the chain length), so the main thread really waits for the analyzer thread of that document
+# ----------------------------------------------------------------------------------------------
+
+def chain_grammar(n, variant):
+    out = ["token A='a' B='b' C='c'%s;" % (" D='d'" if variant == 1 else " E='e' F='f'"), "start r0;"]
+    for i in range(n):
+        out.append("r%d: A %s | B C ;" % (i, "r%d" % (i + 1) if i + 1 < n else "A"))
+    out.append("unused: B ;" if variant == 1 else "idle: C ;\nspare: B ;")
+    return "\n".join(out) + "\n"
+
+
+def calibrate_slow(want=3.0):
+    """Smallest chain length of the ladder whose open() takes at least `want` seconds right now."""
+    n = dt = 0
+    for n in (150, 220, 300, 400, 520, 700):
+        t0 = time.time()
+        run_inproc([{"id": "cal", "steps": [{"op": "open", "doc": 1, "text": chain_grammar(n, 1)}]}], "cal")
+        dt = time.time() - t0
+        if dt >= want:
+            break
+    return n, dt
+
+
+def slow_sessions(n):
+    a, b = chain_grammar(n, 1), chain_grammar(n, 2)
+    small, warn = POOL[0][1], POOL[3][1]
+    decl = lambda i: (2 + i, 1)          # inside the name of the declaration of r<i>
+    use = lambda i: (2 + i, 6 + len(str(i)))   # inside the reference to r<i+1> in the body of r<i>
+    def req(op, doc, pos):
+        st = {"op": op, "doc": doc, "line": pos[0], "character": pos[1]}
+        if op == "references":
+            st["include_declaration"] = True
+        return st
+    s1 = [{"op": "open", "doc": 1, "text": a}, req("hover", 1, decl(5)), req("definition", 1, use(7)),
+          req("hover", 1, decl(9)), {"op": "change", "doc": 1, "text": b}, req("hover", 1, decl(3)),
+          req("references", 1, decl(4)), req("definition", 1, use(2))]
+    s2 = [{"op": "open", "doc": 1, "text": small}, {"op": "open", "doc": 2, "text": a}, req("hover", 1, (2, 0)),
+          req("hover", 2, decl(6)), {"op": "change", "doc": 2, "text": warn}, req("hover", 2, (2, 0)),
+          {"op": "change", "doc": 1, "text": b}, req("definition", 1, use(1)), {"op": "close", "doc": 2},
+          req("hover", 1, decl(8))]
+    return [{"id": "slow:1", "origin": "slow", "steps": s1}, {"id": "slow:2", "origin": "slow", "steps": s2}]
+
+
 def annotate(sess, T):
     """Adds to every step the text id it is about (`tid`) and the position class (`pc`)."""
     cur = {}
@@ -544,11 +589,15 @@ def strip(sess):
     return {"id": sess["id"], "steps": [{k: v for k, v in st.items() if k not in ("tid", "pc")} for st in sess["steps"]]}
 
 
+_TIMEOUT_MS = "10000"      # per session (in process) / per awaited reply (stdio)
+_PER_SHARD = 200
+
+
 def run_inproc(sessions, tag):
     if not sessions:
         return {}
     d = cache_dir("p7")
-    nshard = max(1, min(12, NCPU - 2, (len(sessions) + 199) // 200))
+    nshard = max(1, min(12, NCPU - 2, (len(sessions) + _PER_SHARD - 1) // _PER_SHARD))
     jobs = []
     for k in range(nshard):
         p = os.path.join(d, "inproc-%s-%d.ndjson" % (tag, k))
@@ -556,7 +605,7 @@ def run_inproc(sessions, tag):
         jobs.append(p)
 
     def run(p):
-        r = subprocess.run([harness_bin("lspdrive"), "inproc", p, "10000"], stdout=subprocess.PIPE,
+        r = subprocess.run([harness_bin("lspdrive"), "inproc", p, _TIMEOUT_MS], stdout=subprocess.PIPE,
                            stderr=subprocess.PIPE, text=True, timeout=3600)
         if r.returncode != 0:
             raise ToolError("lspdrive inproc failed: %s" % r.stderr[-2000:])
@@ -582,7 +631,7 @@ def run_stdio(ls, sessions, pacing, tag):
         jobs.append(p)
 
     def run(p):
-        r = subprocess.run([harness_bin("lspdrive"), "stdio", ls, p, pacing, "10000"], stdout=subprocess.PIPE,
+        r = subprocess.run([harness_bin("lspdrive"), "stdio", ls, p, pacing, _TIMEOUT_MS], stdout=subprocess.PIPE,
                            stderr=subprocess.PIPE, text=True, timeout=3600)
         if r.returncode != 0:
             raise ToolError("lspdrive stdio failed: %s" % r.stderr[-2000:])
@@ -1308,6 +1357,31 @@ def judge(prop, tier):
     t_stdio = time.time() - t0
     log("stdio replay of %d sessions x %d pacings in %.1fs" % (len(sample), len(PACINGS), t_stdio))
 
+    # slow documents (the server's main thread waits seconds for the analyzer thread): long time-outs
+    global _TIMEOUT_MS, _PER_SHARD
+    t0 = time.time()
+    slow_n, slow_dt = calibrate_slow()
+    slow = [annotate(x, T) for x in slow_sessions(slow_n)]
+    saved = (_TIMEOUT_MS, _PER_SHARD)
+    _TIMEOUT_MS, _PER_SHARD = "600000", 1
+    try:
+        recS = run_inproc(slow, "slow")
+        refs.need_exports([st["tid"] for x in slow for st in x["steps"]])
+        refs.need_fresh(fresh_pairs(slow, T))
+        for x in slow:
+            by_id[x["id"]] = x
+            events[x["id"]] = J.session(x, recS[x["id"]])
+        recT = run_stdio(ls, slow, "lockstep", "slow")
+        for x in slow:
+            if recT.get(x["id"]) is None:
+                raise ToolError("stdio run lost session %s" % x["id"])
+            J.session(x, recT[x["id"]])
+        J.defref_round()
+    finally:
+        _TIMEOUT_MS, _PER_SHARD = saved
+    t_slow = time.time() - t0
+    log("slow-document sessions: chain of %d rules, open() took %.1fs at calibration; stage %.1fs" % (slow_n, slow_dt, t_slow))
+
     # impl -> spec: trace validation of the recorded in-process runs
     tv_ids = [s["id"] for s in pools["random"]] + [s["id"] for s in sessions if s["id"].startswith("cex:")]
     tv_ids += [s["id"] for s in rng.sample(pools["tlc"], min(len(pools["tlc"]), 400 if quick else 3000))]
@@ -1396,6 +1470,10 @@ def judge(prop, tier):
         "exhaustive": False,
         "sessions_in_process": len(sessions), "sessions_stdio": len(sample), "stdio_pacing_counts": pacing_counts,
         "stdio_deaths": stdio_deaths, "fresh_server_references": refs.fresh_runs, "defref_cross_checks": defref_checked,
+        "slow_documents": {"chain_rules": slow_n, "open_seconds_at_calibration": round(slow_dt, 1), "sessions": len(slow),
+                           "modes": ["in_process", "stdio lockstep"], "stage_s": round(t_slow, 1),
+                           "meaning": "documents whose analysis takes seconds, so that every request really waits for "
+                                      "the analyzer thread; the chain length is calibrated at run time"},
         "op_counts": op_counts, "position_class_counts": class_counts,
         "model_drift": {"rejected_recordings_without_contract_violation": len(pure_drift), "examples": pure_drift[:5],
                         "rejected_recordings_with_a_violation_of_an_unmodelled_cause": len(drift_unmodelled_cause),
